@@ -123,6 +123,9 @@ _compression_write(xmpp_conn_t *conn, const void *buff, size_t len, int flush)
     do {
         ret = _try_compressed_write_to_network(conn, 0);
         if (ret < 0) {
+            /* input that has been consumed must not be offered again */
+            if (comp->compression.stream.next_in > (Bytef *)buff)
+                return comp->compression.stream.next_in - (Bytef *)buff;
             return ret;
         }
 
